@@ -44,9 +44,6 @@ def ErrKind.pyName : ErrKind → String
 
 /-! ### lexical level -/
 
-/-- pyparsing's default whitespace characters -/
-def isWs (c : Char) : Bool := c == ' ' || c == '\t' || c == '\n' || c == '\r'
-
 def skipWs : List Char → List Char
   | [] => []
   | c :: r => if isWs c then skipWs r else c :: r
@@ -130,9 +127,6 @@ def parseTail (s : List Char) : Rat × List Char :=
 /-- closing bracket for `( [ {` -/
 def closer : Char → Option Char
   | '(' => some ')' | '[' => some ']' | '{' => some '}' | _ => none
-
-/-- `term[1] *= mult` for every pair of the sub-formula -/
-def scale (m : Rat) (c : Comp) : Comp := c.map fun p => (p.1, p.2 * m)
 
 /-- `formula = OneOrMore(term)` + `sumByElement`: at least one term, then sum per element -/
 def asFormula : Option (Comp × List Char) → Option (Comp × List Char)
@@ -228,10 +222,6 @@ def formulaToParts (prefixes suffixes : List (List Char)) (s : List Char) : Exce
     if s2.count '-' > 1 then .error .multiToken
     else let (a, b) := splitAtChar '-' s2; .ok ⟨a, some ('-' :: b), dp, ds.reverse⟩
   else .ok ⟨s2, none, dp, ds.reverse⟩
-
-/-- ASCII characters that `int()` strips from both ends of its argument -/
-def isPySpace (c : Char) : Bool :=
-  c == ' ' || c == '\t' || c == '\n' || c == '\r' || c == '\x0b' || c == '\x0c'
 
 def dropSpaces : List Char → List Char
   | [] => []
